@@ -108,6 +108,10 @@ impl TlsState {
                     break;
                 }
             }
+            // drain decrypted bytes as they come (rustls bounds its plaintext buffer)
+            let mut plain = Vec::new();
+            let _ = self.client.reader().read_to_end(&mut plain);
+            self.decrypted.extend_from_slice(&plain);
         }
         let mut plain = Vec::new();
         match self.client.reader().read_to_end(&mut plain) {
@@ -174,6 +178,30 @@ impl Write for TlsSim {
     }
 }
 
+fn big_rows() -> Vec<Vec<u8>> {
+    let mut rows = vec![(0..40_000).map(|i| (i % 251) as u8).collect::<Vec<u8>>()];
+    for r in 0..70u8 {
+        rows.push(vec![r; 300]);
+    }
+    rows
+}
+
+/// queries starting with "big" get a resultset that spans several TLS records
+fn tls_behave() -> Box<dyn FnMut(usize, &Cb) -> Behavior> {
+    let mut std = std_behave();
+    let cols = Arc::new(vec![col("c", msql_srv::ColumnType::MYSQL_TYPE_BLOB, msql_srv::ColumnFlags::empty())]);
+    let mut p = vec![WOp::Start(cols)];
+    for r in big_rows() {
+        p.push(WOp::WriteRow(vec![Val::Bytes(r)]));
+    }
+    p.push(WOp::Finish);
+    let prog = Arc::new(p);
+    Box::new(move |i, cb| match cb {
+        Cb::Query(t) if t.starts_with("big") => Behavior::Prog(prog.clone()),
+        other => std(i, other),
+    })
+}
+
 struct TlsOutcome {
     res: ConnResult,
     log: Vec<Cb>,
@@ -183,7 +211,9 @@ struct TlsOutcome {
 fn script() -> (Vec<u8>, Conv, Vec<u8>) {
     let caps = CAP_LONG_PASSWORD | CAP_PROTOCOL_41 | CAP_SECURE_CONNECTION | CAP_SSL;
     let hs = frame(2, &handshake41(caps, 1 << 24, 0x21, b"tls-user", &[0])).0;
-    let cmds = vec![q(b"SELECT 1"), ClientCmd::new(with_byte(COM_STMT_PREPARE, b"id=1 p=0")), ClientCmd::new(cmd_execute(1, 0, 1, &[])), ping(), quit()];
+    let mut big = b"big ".to_vec();
+    big.extend((0..20_000).map(|i| b'a' + (i % 26) as u8));
+    let cmds = vec![q(b"SELECT 1"), ClientCmd::new(with_byte(COM_STMT_PREPARE, b"id=1 p=0")), ClientCmd::new(cmd_execute(1, 0, 1, &[])), q(&big), ping(), quit()];
     let mut conv = Conv::new(cmds);
     conv.handshake = hs;
     conv.hs_seq = 2;
@@ -213,7 +243,7 @@ fn run_tls(server_tls: Option<Arc<rustls::ServerConfig>>, client_cert: bool, cut
         reads: 0,
     };
     let sim = TlsSim(Rc::new(RefCell::new(st)));
-    let mut shim = Shim::new(None, std_behave());
+    let mut shim = Shim::new(None, tls_behave());
     shim.tls = server_tls;
     let r = {
         let sh = &mut shim;
@@ -296,7 +326,9 @@ fn judge(o: &TlsOutcome, client_cert: bool, what: &str, st: &mut Stats) -> Resul
         }
         other => return Err(Violation::new("auth-missing", format!("{}: first callback is {:?}", what, other.map(cb_short)))),
     }
-    let expected = vec![o.log[0].clone(), Cb::Query("SELECT 1".into()), Cb::Prepare("id=1 p=0".into()), Cb::Execute { id: 1, params: vec![] }];
+    let (_, conv0, _) = script();
+    let big_text = String::from_utf8(conv0.cmds[3].payload[1..].to_vec()).unwrap();
+    let expected = vec![o.log[0].clone(), Cb::Query("SELECT 1".into()), Cb::Prepare("id=1 p=0".into()), Cb::Execute { id: 1, params: vec![] }, Cb::Query(big_text)];
     if o.log != expected {
         return Err(Violation::new("commands-differ", format!("{}: callback log {:?}", what, o.log.iter().map(cb_short).collect::<Vec<_>>())));
     }
@@ -304,7 +336,16 @@ fn judge(o: &TlsOutcome, client_cert: bool, what: &str, st: &mut Stats) -> Resul
     let (_, conv, last_seq) = script();
     let mut all = o.st.from_server[..g].to_vec();
     all.extend_from_slice(&o.st.decrypted);
-    decode_all(&all, &conv, &last_seq, 4, false).map_err(|e| Violation::new("decrypted-replies", format!("{}: {}", what, e)))?;
+    let d = decode_all(&all, &conv, &last_seq, 5, false).map_err(|e| Violation::new("decrypted-replies", format!("{}: {}", what, e)))?;
+    match &d.replies[3][..] {
+        [Unit::ResultSet { rows, end: Ok(_), .. }] => {
+            let want = big_rows();
+            if rows.len() != want.len() || rows.iter().zip(want.iter()).any(|(g, w)| g[0] != Cell::Text(w.clone())) {
+                return Err(Violation::new("decrypted-rows-differ", format!("{}: the multi-record resultset arrives changed", what)));
+            }
+        }
+        other => return Err(Violation::new("decrypted-replies", format!("{}: reply to the big query has {} units", what, other.len()))),
+    }
     Ok(())
 }
 
@@ -334,7 +375,7 @@ impl Splits {
             0 => (vec![idx as usize + 1], usize::MAX),
             1 | 3 => {
                 // pairs a<b within the first flight (+ a little beyond), or over the whole stream
-                let m = if self.mode == 1 { (self.base.first_flight + 8) as u64 } else { (self.base.n + 4) as u64 };
+                let m = if self.mode == 1 { (self.base.first_flight + 8) as u64 } else { (self.base.n + 4).min(1100) as u64 };
                 let mut k = idx;
                 let mut a = 1u64;
                 loop {
@@ -359,7 +400,7 @@ impl Family for Splits {
         match self.mode {
             0 => (self.base.n + 6) as u64,
             1 | 3 => {
-                let m = if self.mode == 1 { (self.base.first_flight + 8) as u64 } else { (self.base.n + 4) as u64 };
+                let m = if self.mode == 1 { (self.base.first_flight + 8) as u64 } else { (self.base.n + 4).min(1100) as u64 };
                 m * (m - 1) / 2
             }
             _ => 64,
@@ -434,7 +475,7 @@ pub fn build(quick: bool) -> Check {
     Check {
         id: "C18",
         level: "model_checking",
-        rule: "a live rustls client inside the transport: SSLRequest (plaintext) immediately followed by the ClientHello, then, once the server's flight arrived, Finished (+ client certificate) coalesced with the encrypted HandshakeResponse41 and five pipelined commands. Schedules: every single cut position of the whole client->server stream, every pair of cut positions within SSLRequest+ClientHello (thorough: every pair over the whole stream), uniform read sizes 1..64; with and without a client certificate; plus a TLS-requesting client against a shim without TLS configuration under every cut of its first flight. Oracle: user name and certificate chain at after_authentication, callback log = script, every server byte after the greeting lies in a well-formed TLS record the client accepts, decrypted replies decode strictly with the right sequence ids, run_on returns Ok; no-config case: Err and no callback.".into(),
+        rule: "a live rustls client inside the transport: SSLRequest (plaintext) immediately followed by the ClientHello, then, once the server's flight arrived, Finished (+ client certificate) coalesced with the encrypted HandshakeResponse41 and six pipelined commands, among them a 20000-byte query (several inbound TLS records) answered by a resultset with a 40000-byte cell and 70 rows (several outbound records). Schedules: every single cut position of the whole client->server stream, every pair of cut positions within SSLRequest+ClientHello (thorough: every pair within the first 1100 bytes), uniform read sizes 1..64; with and without a client certificate; plus a TLS-requesting client against a shim without TLS configuration under every cut of its first flight. Oracle: user name and certificate chain at after_authentication, callback log = script, every server byte after the greeting lies in a well-formed TLS record the client accepts, decrypted replies decode strictly with the right sequence ids, run_on returns Ok; no-config case: Err and no callback.".into(),
         assumptions: vec![
             "ring's randomness is not owned: handshake bytes differ between runs and with a client certificate the stream length varies by a byte or two; cut positions are taken from the stream actually produced, the verdict does not depend on the random values".into(),
             "flush behaviour is C12's subject; here written bytes are visible to the client at once".into(),
